@@ -94,7 +94,9 @@ pub fn gen(args: &Args, out: &mut dyn Write) {
             (rng.range(1, 9) as u32, rng.range(1, 7) as u32)
         };
         let mut coord = |rng: &mut Rng, n: u32| -> f32 {
-            match rng.below(11) {
+            match rng.below(12) {
+                // halves where the spacing of f32 is exactly one half (2^22 .. 2^23), both signs
+                11 => { let v = 4194304.0 + rng.below(4194304) as f32 + 0.5; if rng.chance(1, 2) { v } else { -v } }
                 // a hair above / below a texel edge (closer than a 16.16 fixed-point step of the relative coordinate)
                 10 => rng.range(0, n as i64) as f32 + *rng.pick(&[2e-6f32, 1e-5, 6e-5, -2e-6, -1e-5]) * n as f32,
                 // arbitrary bit patterns: every class of f32
